@@ -24,7 +24,9 @@ deriving Repr, DecidableEq, Inhabited
 /-- why token processing can end other than with a value -/
 inductive VErr where
   | exit1 (msg : String)          -- `exit(1)` with a diagnostic
-  | abnormal (kind : String)      -- out-of-bounds read, assertion, uncaught exception
+  | abnormal (kind : String)      -- out-of-bounds read, assertion (the process dies)
+  | exc (what : String)           -- a C++ exception derived from std::exception with this `what()`; the tools'
+                                  -- `main`s catch it, report it and exit with status 1
 deriving Repr, DecidableEq, Inhabited
 
 abbrev VM := Except VErr
@@ -45,7 +47,7 @@ def isSepChar (c : UInt8) : Bool :=
 def dataIntValue (d : Bytes) : VM Int :=
   match scriptNum d false 4 with
   | .ok v => .ok v
-  | .error _ => .error (.abnormal "uncaught scriptnum_error in Value::int_value")
+  | .error _ => .error (.exc "script number overflow")      -- scriptnum_error thrown by the CScriptNum constructor
 
 /-- `Value::data_value()` -/
 def Value.dataValue (v : Value) : Bytes :=
@@ -176,17 +178,22 @@ def skipLine (full : Bytes) (len : Nat) : Nat → Nat → Nat
   | 0, i => i
   | k + 1, i => if i < len && full.getD i 0 != 10 && full.getD i 0 != 13 then skipLine full len k (i + 1) else i
 
-/-- the `for (i = 0; i <= args_len; i++)` loop of `parse_args(const char*, size_t)`; `k` is loop fuel -/
+/-- the `for (i = 0; i <= args_len; i++)` loop of `parse_args(const char*, size_t)`; `k` is loop fuel.
+    A `[` (at the start of a word or inside one) is scanned to its matching `]`; the group is part of the word
+    it occurs in (`i--; continue;`), which goes on until the next separator. -/
 def tokenize (full : Bytes) (len : Nat) : Nat → Nat → Nat → List Bytes → VM (List Bytes)
   | 0, _, _, acc => .ok acc.reverse
   | k + 1, i, start, acc =>
     if i > len then .ok acc.reverse
     else if len == 0 then .error (.abnormal "args_string[-1]")
     else do
-      let ch0 ← cAt full (if i == len then i - 1 else i)
-      -- bracket: count depth until it closes
-      let (i, ch) ← if ch0.toNat == 91 then bracketScan full len (len + 2) (i + 1) 1 ch0 else pure (i, ch0)
-      if i == len || isSepChar ch then
+      let ch ← cAt full (if i == len then i - 1 else i)
+      if ch.toNat == 91 then do
+        -- bracket: count depth until it closes; the scan leaves i one past the closing bracket, `i--; continue`
+        -- and the loop's `i++` resume there
+        let (i2, _) ← bracketScan full len (len + 2) (i + 1) 1 ch
+        tokenize full len k i2 start acc
+      else if i == len || isSepChar ch then
         let (acc, start) :=
           if start == i then (acc, start + 1)
           else ((full.drop start).take (i - start) :: acc, i + 1)
@@ -233,23 +240,35 @@ def valueBody (cx : VCtx) (mk : Bytes → Nat → VM Value) (full : Bytes) (vlen
           else classifyPlain inner full vlen      -- "unknown function: expression left as is"
       else classifyPlain base full vlen
 
-/-- `Value(const char*, vlen)` with nesting depth at most `fuel` (every nested text is strictly shorter) -/
+/-- the nesting limit of `Value::DepthGuard` (value.h): sub-scripts and inline calls count against it -/
+def valueDepthLimit : Nat := 200
+def depthMsg : String := "parse error, expression nested too deeply (more than 200 levels)"
+
+/-- `Value(const char*, vlen)`; `fuel` = how many more `Value` constructors may be active at once
+    (`DepthGuard`: `if (++depth() > 200) exit(1)`; a top-level value is constructed with fuel 200) -/
 def valueOf (cx : VCtx) : Nat → Bytes → Nat → VM Value
-  | 0 => fun _ _ => .error (.abnormal "nesting fuel exhausted")
+  | 0 => fun _ _ => .error (.exit1 depthMsg)
   | fuel + 1 => fun full vlen => valueBody cx (valueOf cx fuel) full vlen
 
 def parseArgsList (cx : VCtx) (fuel : Nat) (args : List Bytes) : VM (List Value) :=
   parseArgsListWith (valueOf cx fuel) args [] 0 []
 
-/-- `Value::serialize(parse_args(argc, argv, 1))`: what `btcc` prints (as bytes of the script) -/
-def btcc (cx : VCtx) (argv : List Bytes) : VM Bytes := do
-  let depth := (argv.foldl (fun n a => n + a.length) 0) + 4
-  let vs ← parseArgsList cx depth argv
-  appendAll vs []
+/-- what a tool's `main` does with a C++ exception: `catch (std::exception const& ex)`, a message, exit status 1 -/
+def catchExc {α} (pfx : String) (x : VM α) : VM α :=
+  match x with
+  | .error (.exc w) => .error (.exit1 (pfx ++ w))
+  | r => r
 
-/-- `Value(text).data_value()`: how btcdeb reads a script / stack argument -/
+/-- `Value::serialize(parse_args(argc, argv, 1))` inside btcc's `try`: what `btcc` prints (as bytes of the script) -/
+def btcc (cx : VCtx) (argv : List Bytes) : VM Bytes :=
+  catchExc "error: " (do
+    let vs ← parseArgsList cx valueDepthLimit argv
+    appendAll vs [])
+
+/-- `Value(text).data_value()`: how btcdeb / tap read a script or stack argument and the fields of --pretend-valid
+    (an exception is caught by the caller's `main`, see `catchExc`) -/
 def valueData (cx : VCtx) (text : Bytes) : VM Bytes := do
-  let v ← valueOf cx (text.length + 4) text text.length
+  let v ← valueOf cx valueDepthLimit text text.length
   pure v.dataValue
 
 end Btcdeb.Model
